@@ -22,7 +22,7 @@ Lemma CUpTo_of_CInv w : CInv ok12 w -> CUpTo (mlen (w_buf w)) w.
 Proof.
   intros CI. apply CInv_below in CI.
   apply (CInv_weaken _ (okb (mlen (w_buf w)))) in CI; [|unfold okb, ok12; cbv beta; tauto].
-  destruct CI as (A & B & C). split; [|split]; (eapply Forall_weaken; [|eassumption]); cbv beta; auto.
+  destruct CI as (A & B & C & _). split; [|split]; (eapply Forall_weaken; [|eassumption]); cbv beta; auto.
 Qed.
 
 Lemma StaticOK_agree m m' (ok : N -> Prop) v : agree_on ok m m' -> StaticOK m ok v -> StaticOK m' ok v.
@@ -99,11 +99,11 @@ Proof.
 Qed.
 
 (* after truncating to a boundary the plain invariant holds again *)
-Lemma CInv_of_CUpTo b w : CUpTo b w -> TBound w -> mlen (w_buf w) <= b -> CInv ok12 w.
+Lemma CInv_of_CUpTo b w : CUpTo b w -> TBound w -> mlen (w_buf w) <= b -> HU (w_buf w) (w_hash w) -> CInv ok12 w.
 Proof.
-  intros (A1 & A2 & A3) (T1 & T2 & T3) L.
+  intros (A1 & A2 & A3) (T1 & T2 & T3) L U.
   assert (W : forall i, okb b i -> ok12 i) by (unfold okb, ok12; intros; lia).
-  split; [|split]; rewrite Forall_forall in *.
+  split; [|split; [|split; [|exact U]]]; rewrite Forall_forall in *.
   - intros v Hv. specialize (A1 v Hv). specialize (T1 v Hv). destruct (A1 ltac:(lia)) as (l & ls & e & H).
     exists l, ls, e. eapply LabelAt_weaken; eauto.
   - intros kv Hv. specialize (A2 kv Hv). specialize (T2 kv Hv). destruct (A2 ltac:(lia)) as (l & ls & e & K & H).
@@ -138,7 +138,7 @@ Definition wf_op (o : op) : Prop :=
   match o with
   | OpQ q => wf_q q
   | OpR r => wf_r r
-  | OpOpt udp _ => udp < 65536
+  | OpOpt oh _ => wf_oh oh
   | _ => True
   end.
 
@@ -300,8 +300,21 @@ Proof.
       split; [eapply QsAt_agree; [apply Ag; lia|lia|exact Q0]|].
       split; [eapply RsAt_agree; [apply Ag; lia|lia|exact R1]|].
       split; [eapply RsAt_agree; [apply Ag; lia|lia|exact R2]|]. repeat split; try constructor; auto.
-  - apply (CInv_of_CUpTo len); [|exact TBw|lia].
-    eapply CUpTo_trunc; [exact HT|lia|]. apply (HF len Iin).
+  - assert (CUl : CUpTo len (b_w s)) by apply (HF len Iin).
+    apply (CInv_of_CUpTo len); [eapply CUpTo_trunc; [exact HT|lia|exact CUl]|exact TBw|lia|].
+    (* uniqueness of hash entries survives the truncation *)
+    destruct HC as (_ & _ & CH & CU). pose proof (truncate_sub c len (b_w s) w HT) as (_ & _ & _ & Ih).
+    destruct TBw as (_ & _ & T3). rewrite Forall_forall in T3, CH.
+    intros h1 h2 t la lb J1 J2 L1 L2 E.
+    assert (X : forall h lx, In (h, t) (w_hash w) -> label_at (w_buf w) (mlen (w_buf w)) h = Some lx ->
+                label_at (w_buf (b_w s)) (mlen (w_buf (b_w s))) h = Some lx).
+    { intros h lx Hin Hl. destruct (T3 _ Hin) as [Hh _]. cbn [fst] in Hh.
+      destruct CUl as (_ & _ & C3). rewrite Forall_forall in C3.
+      destruct (C3 _ (Ih _ Hin) ltac:(cbn [fst]; lia)) as (l0 & ls0 & ee0 & HLa & _). cbn [fst] in HLa.
+      pose proof (LabelAt_agree _ _ _ _ _ _ _ (Ag len ltac:(lia)) HLa) as HLb.
+      destruct HLa as (V & _ & Ba & _). destruct HLb as (_ & _ & Bb & _).
+      rewrite (label_at_here _ _ _ V Bb) in Hl. rewrite (label_at_here _ _ _ V Ba). exact Hl. }
+    apply (CU h1 h2 t la lb); auto.
   - rewrite Forall_forall. intros b Hb. apply filter_In in Hb as [Hb Hle]. apply N.leb_le in Hle.
     destruct (HF b Hb) as [[Lb1 Lb2] Cb]. split; [lia|]. eapply CUpTo_trunc; eauto.
   - split; [apply in_filter_le; auto|].
@@ -329,6 +342,11 @@ Proof.
   unfold Layout, buf_of, CMax in *. rewrite Ew, E1, E2, E3, E4. auto.
 Qed.
 
+Lemma Layout_set_hdr s a bs h : Layout s a bs -> Layout (set_hdr s h) a bs.
+Proof.
+  unfold Layout, Sections, StartsIn, CMax, buf_of, set_hdr; cbn [b_w b_sec b_s1 b_s2 b_s3 b_qd b_an b_ns b_ar]. auto.
+Qed.
+
 Lemma step_layout c s a bs o s' r :
   BW c s -> CountInv s a -> Layout s a bs -> wf_op o -> step c s o = (s', r) -> alive r ->
   exists bs', Layout s' (acc_step (b_sec s) a o r) bs'.
@@ -336,7 +354,7 @@ Proof.
   intros HB HCt HL Hwf H AL. pose proof HB as (TB & SI & L12 & Lsec & R).
   pose proof HL as (HS & HC & HF & HSt & HM).
   assert (HW : WG c ok12 (b_w s)) by (split; [exact TB|split; [exact SI|exact HC]]).
-  destruct o as [q|rr|udp opts| | | |l]; cbn [step] in H; cbn [wf_op] in Hwf.
+  unfold step in H. destruct o as [q|rr|oh opts| | | |l|h]; cbn [step_gen] in H; cbn [wf_op] in Hwf.
   - destruct (N.eqb_spec (b_sec s) 0) as [E0|E0]; [|injection H as <- <-; exists bs; exact HL].
     destruct (mb_push_cases c s (compose_question c q) HB (compose_question_spec c q))
       as [(w' & Ef & E & X & TB' & SI' & _ & Lc)|[(e' & E)|(x & E & D)]]; rewrite E in H; injection H as <- <-.
@@ -352,11 +370,11 @@ Proof.
     + exists bs. exact HL.
     + unfold alive in AL. congruence.
   - destruct (N.eqb_spec (b_sec s) 3) as [E0|E0]; [|injection H as <- <-; exists bs; exact HL].
-    destruct (mb_push_cases c s (compose_opt c udp opts) HB (compose_opt_spec c udp opts))
-      as [(w' & Ef & E & X & TB' & SI' & _ & Lc)|[(e' & E)|(x & E & D)]]; rewrite E in H; injection H as <- <-.
-    + destruct (compose_opt_ok c udp opts (b_w s) w' HW L12 Hwf Ef) as ((_ & _ & CI') & HR & _).
-      eexists. cbn [acc_step]. eapply Layout_push_r; eauto. lia.
-    + exists bs. exact HL.
+    destruct (mb_push_cases c s (compose_opt c oh opts) HB (compose_opt_spec c oh opts))
+      as [(w' & Ef & E & X & TB' & SI' & _ & Lc)|[(e' & E)|(x & E & D)]]; rewrite E in H; cbn [fst snd] in H; injection H as <- <-.
+    + destruct (compose_opt_ok c oh opts (b_w s) w' HW L12 Hwf Ef) as ((_ & _ & CI') & HR & _).
+      eexists. cbn [acc_step]. apply Layout_set_hdr. eapply Layout_push_r; eauto. lia.
+    + exists bs. apply Layout_set_hdr. exact HL.
     + unfold alive in AL. congruence.
   - (* OpNext *)
     destruct (N.ltb_spec (b_sec s) 3) as [L3|L3]; injection H as <- <-; [|exists bs; exact HL].
@@ -402,6 +420,7 @@ Proof.
     eexists. cbn [acc_step]. eapply Layout_rewind; eauto.
   - injection H as <- <-. exists bs. cbn [acc_step].
     apply (Layout_sections_only s a bs); auto.
+  - injection H as <- <-. exists bs. cbn [acc_step]. apply Layout_set_hdr. exact HL.
 Qed.
 
 Lemma init_layout c s0 : init c = Some s0 -> Layout s0 acc0 [12].
@@ -445,12 +464,13 @@ Lemma msg_of_split s : 12 <= mlen (buf_of s) ->
             bytes_at (msg_of s) 4 (be16 (b_qd s) ++ be16 (b_an s) ++ be16 (b_ns s) ++ be16 (b_ar s)).
 Proof.
   intros L. unfold buf_of in *.
-  exists (firstn 4 (w_buf (b_w s)) ++ be16 (b_qd s) ++ be16 (b_an s) ++ be16 (b_ns s) ++ be16 (b_ar s)).
-  assert (L4 : mlen (firstn 4 (w_buf (b_w s))) = 4) by (unfold mlen in *; rewrite firstn_length; lia).
-  split; [rewrite !mlen_app, L4; reflexivity|]. split; [unfold msg_of; rewrite <- !app_assoc; reflexivity|].
-  unfold msg_of. rewrite <- L4.
-  replace (firstn 4 (w_buf (b_w s)) ++ be16 (b_qd s) ++ be16 (b_an s) ++ be16 (b_ns s) ++ be16 (b_ar s) ++ skipn 12 (w_buf (b_w s)))
-    with (firstn 4 (w_buf (b_w s)) ++ (be16 (b_qd s) ++ be16 (b_an s) ++ be16 (b_ns s) ++ be16 (b_ar s)) ++ skipn 12 (w_buf (b_w s)))
+  set (hd := firstn 4 (b_hdr s ++ [0; 0; 0; 0])).
+  exists (hd ++ be16 (b_qd s) ++ be16 (b_an s) ++ be16 (b_ns s) ++ be16 (b_ar s)).
+  assert (L4 : mlen hd = 4) by (subst hd; unfold mlen; rewrite firstn_length, app_length; cbn [length]; lia).
+  split; [rewrite !mlen_app, L4; reflexivity|]. split; [unfold msg_of; fold hd; rewrite <- !app_assoc; reflexivity|].
+  unfold msg_of. fold hd. rewrite <- L4.
+  replace (hd ++ be16 (b_qd s) ++ be16 (b_an s) ++ be16 (b_ns s) ++ be16 (b_ar s) ++ skipn 12 (w_buf (b_w s)))
+    with (hd ++ (be16 (b_qd s) ++ be16 (b_an s) ++ be16 (b_ns s) ++ be16 (b_ar s)) ++ skipn 12 (w_buf (b_w s)))
     by (rewrite <- !app_assoc; reflexivity).
   apply bytes_at_app.
 Qed.
